@@ -10,6 +10,13 @@ import Mathlib.Tactic.NormNum
 # C09  Reported OPD is the path difference to the chief-ray reference sphere
 Theorems over ℝ about `Model/Wavefront.lean` (the model the correspondence run ties to
 `wavefront.py`, `analysis/rms_vs_field.py`, `optimization/operand/ray.py`, `distribution.py`).
+
+Which variant is the tree's: `…Code` (geometric distances `t`, tilt term without index) is what `wavefront.py`
+did before F-C09-1/F-C09-2 were repaired upstream (commit 88b5ca6); since then the tree computes the `…Spec`
+variant (`n_img·t`, `n_obj·tilt`).  The two coincide in air (`code_eq_spec`).  Every clause is therefore stated
+for both variants (`opd_definition`/`opd_definition_spec`, `chief_opd_zero`/`…_spec`, `opds_getElem`/
+`opdsSpec_getElem`, `fan_is_cross_sample`/`…_spec`, `corrected_path_…`/`corrected_path_spec_…`); the clause as
+a whole is `reported_opd_is_path_difference_to_sphere`.
 -/
 namespace C09
 open Model Model.Wf
@@ -532,5 +539,98 @@ example : ∃ g : Launch ℝ, g.fieldX = 0 ∧ g.vx = 1 ∧ g.vy = 1 ∧ g.pos1 
   rw [radians_eq]
   apply Real.cos_pos_of_mem_Ioo
   constructor <;> nlinarith [Real.pi_pos]
+
+/-! ### review additions: the clause in one statement, `…Spec` counterparts, joint non-vacuity -/
+
+/-- `imageToXp` is a *distance* for a unit direction: the point reached lies `|t|` from the image point -/
+theorem backPoint_distance (r : Ray ℝ) (t : ℝ) (hu : qa r = 1) (ht : 0 ≤ t) :
+    Real.sqrt (((backPoint r t).1 - r.x) ^ 2 + ((backPoint r t).2.1 - r.y) ^ 2 + ((backPoint r t).2.2 - r.z) ^ 2) = t := by
+  have h : ((backPoint r t).1 - r.x) ^ 2 + ((backPoint r t).2.1 - r.y) ^ 2 + ((backPoint r t).2.2 - r.z) ^ 2
+      = t ^ 2 * qa r := by
+    rw [qa_eq]; unfold backPoint; num_real; ring
+  rw [h, hu, mul_one, Real.sqrt_sq ht]
+
+/-- **reported_opd_is_path_difference_to_sphere** (the first sentence of C09 in one statement).  For a ray
+and a chief ray with unit directions whose image point lies inside the reference sphere (blur smaller than
+the sphere radius): going back from the image point against the ray one meets the reference sphere at a
+point `Q` at distance `t > 0`; the chief ray meets it at distance `R`; and the reported value is
+`((chief path to the sphere) − (ray path to the sphere)) / λ`, each path being the recorded optical path at
+the image surface minus `n_img ×` that distance minus the `n_obj ×` wavefront offset in object space. -/
+theorem reported_opd_is_path_difference_to_sphere (c : Cfg ℝ) (chief r : Ray ℝ) (px py : ℝ)
+    (hu : qa r = 1) (huc : qa chief = 1) (hin : qc (sphereOf c chief) r < 0) :
+    let s := sphereOf c chief
+    let Q := backPoint r (imageToXp s r)
+    let d := Real.sqrt ((Q.1 - r.x) ^ 2 + (Q.2.1 - r.y) ^ 2 + (Q.2.2 - r.z) ^ 2)
+    0 < d ∧
+    (Q.1 - s.xc) ^ 2 + (Q.2.1 - s.yc) ^ 2 + (Q.2.2 - s.zc) ^ 2 = s.R ^ 2 ∧
+    opdOfRaySpec c chief r px py =
+      ((chief.opd - c.nImg * s.R - c.nObj * tiltCorrectionCode c 0 0) -
+       (r.opd - c.nImg * d - c.nObj * tiltCorrectionCode c px py)) / (c.wavelength * (1 / 1000)) := by
+  intro s Q d
+  have ha : 0 < qa r := by rw [hu]; norm_num
+  obtain ⟨hd, -, hpos, hroot⟩ := image_to_sphere_inside s r ha hin
+  have htpos : 0 < imageToXp s r := by rw [hroot]; exact hpos
+  have hdist : d = imageToXp s r := backPoint_distance r _ hu htpos.le
+  refine ⟨by rw [hdist]; exact htpos, image_to_sphere s r ha.ne' hd.le, ?_⟩
+  rw [opd_definition_spec, hdist, chief_distance_is_radius c chief huc]
+
+/-! ### the same statements for the `…Spec` variant (what the tree computes since F-C09-1/2 were repaired) -/
+
+theorem opdsSpec_getElem (c : Cfg ℝ) (chief : Ray ℝ) (rays : List (Ray ℝ)) (pts : List (ℝ × ℝ)) (k : Nat)
+    (h1 : k < rays.length) (h2 : k < pts.length) :
+    (opdsSpec c chief rays pts)[k]'(by simp [opdsSpec, h1, h2]) =
+      opdOfRaySpec c chief rays[k] pts[k].1 pts[k].2 := by
+  simp [opdsSpec]
+
+theorem fan_is_cross_sample_spec (c : Cfg ℝ) (chief : Ray ℝ) (rays : List (Ray ℝ)) (n : Nat) :
+    fanY n (opdsSpec c chief rays (crossPoints n)) =
+        opdsSpec c chief (rays.take n) ((linspace (-1 : ℝ) 1 n).map (fun t => ((0 : ℝ), t))) ∧
+    fanX n (opdsSpec c chief rays (crossPoints n)) =
+        opdsSpec c chief (rays.drop n) ((linspace (-1 : ℝ) 1 n).map (fun t => (t, (0 : ℝ)))) := by
+  have hl := linspace_length (-1) 1 n
+  unfold fanY fanX opdsSpec
+  rw [crossPoints_eq, List.take_zipWith, List.drop_zipWith]
+  constructor
+  · rw [List.take_left' (by simp [hl])]
+  · rw [List.drop_left' (by simp [hl])]
+
+/-- the optical version of `corrected_path_is_from_common_wavefront`: the term subtracted is `n_obj` times
+the geometric offset between the start point and the common plane wavefront -/
+theorem corrected_path_spec_is_from_common_wavefront (c : Cfg ℝ) (g : Launch ℝ) (opd px py : ℝ)
+    (hang : c.isAngle = true) (hxt : c.maxX * c.Hx = 0) (hyt : c.maxY * c.Hy = g.fieldY) (he : c.epd = g.epd)
+    (hx : g.fieldX = 0) (hvx : g.vx = 1) (hvy : g.vy = 1) (hp : g.pos1 = 0) (hs : 0 < g.offset + g.epl)
+    (hc : 0 < Real.cos (radians g.fieldY)) :
+    correctTiltSpec c opd px py = opd + c.nObj *
+      ((g.dir px py).1 * ((g.start px py).1 - (g.start 0 1).1) +
+       (g.dir px py).2.1 * ((g.start px py).2.1 - (g.start 0 1).2.1) +
+       (g.dir px py).2.2 * ((g.start px py).2.2 - (g.start 0 1).2.2)) := by
+  unfold correctTiltSpec tiltCorrectionSpec
+  rw [tilt_is_wavefront_offset c g px py hang hxt hyt he hx hvx hvy hp hs hc]
+  num_real
+  ring
+
+/-- non-vacuity of `tilt_is_wavefront_offset` / `corrected_path_…`: a configuration *and* a bundle (field
+18° along y, EPD 10) meeting every hypothesis together -/
+example : ∃ (c : Cfg ℝ) (g : Launch ℝ), c.isAngle = true ∧ c.maxX * c.Hx = 0 ∧ c.maxY * c.Hy = g.fieldY ∧
+    c.epd = g.epd ∧ g.fieldX = 0 ∧ g.vx = 1 ∧ g.vy = 1 ∧ g.pos1 = 0 ∧ 0 < g.offset + g.epl ∧
+    0 < Real.cos (radians g.fieldY) ∧ g.fieldY ≠ 0 := by
+  refine ⟨⟨true, 0, 18, 0, 1, 10, -50, 100, 1, 1, 0.55⟩, ⟨5, 10, 10, 0, 0, 18, 1, 1⟩,
+    rfl, by norm_num, by norm_num, rfl, rfl, rfl, rfl, rfl, by norm_num, ?_, by norm_num⟩
+  rw [radians_eq]
+  apply Real.cos_pos_of_mem_Ioo
+  constructor <;> nlinarith [Real.pi_pos]
+
+/-- non-vacuity of `reported_opd_is_path_difference_to_sphere`: exit pupil 100 in front of the image plane,
+chief ray along the axis, a ray arriving 0.01 off the chief image point with direction `(0, 3/5, 4/5)` -/
+example : ∃ (c : Cfg ℝ) (chief r : Ray ℝ), qa r = 1 ∧ qa chief = 1 ∧ qc (sphereOf c chief) r < 0 ∧
+    r.y ≠ chief.y ∧ r.M ≠ 0 := by
+  refine ⟨⟨true, 0, 0, 0, 0, 10, -100, 100, 1, 1, 0.55⟩, ⟨0, 0, 100, 0, 0, 1, 1, 120⟩,
+    ⟨0, 1/100, 100, 0, 3/5, 4/5, 1, 120⟩, ?_, ?_, ?_, by norm_num, by norm_num⟩
+  · rw [qa_eq]; norm_num
+  · rw [qa_eq]; norm_num
+  · rw [qc_eq, sphere_radius, Real.sq_sqrt (by positivity)]
+    obtain ⟨hx, hy, hz⟩ := sphere_centre (⟨true, 0, 0, 0, 0, 10, -100, 100, 1, 1, 0.55⟩ : Cfg ℝ)
+      (⟨0, 0, 100, 0, 0, 1, 1, 120⟩ : Ray ℝ)
+    rw [hx, hy, hz]; norm_num
 
 end C09
